@@ -2,6 +2,7 @@
 accept such a command with any extra argument and hand the extra values to execute() as written."""
 from mpilot import params
 from mpilot.commands import Command
+from mpilot.libraries.eems.fuzzy import FuzzyNot
 
 SEEN = []
 
@@ -14,3 +15,10 @@ class Extras(Command):
     def execute(self, **kw):
         SEEN.append(dict(kw))
         return ",".join(sorted(kw))
+
+
+class NotAgain(FuzzyNot):
+    """a library command that specialises a built-in fuzzy command without repeating its declarations: what it takes and what it produces
+    (a fuzzy result) is what the parent declares"""
+
+    display_name = "Not, again"
